@@ -1122,6 +1122,14 @@ class _ProtoBuilder:
             module=file_descriptor.name.split("/")[-1][: -len(".proto")],
             package=tuple(file_descriptor.package.split(".")),
         )
+        # The proto-plus types of a file are written to (and imported from)
+        # a module named after the file in snake case (see `Proto.module_name`);
+        # only `_pb2` modules keep the file name as it is.
+        if self.address.is_proto_plus_type:
+            self.address = dataclasses.replace(
+                self.address,
+                module=to_snake_case(self.address.module),
+            )
 
         # Now iterate over the FileDescriptorProto and pull out each of
         # the messages, enums, and services.
